@@ -197,6 +197,10 @@ pub struct PreprocessTokenData {
     /// The location after the token
     /// Must be from the same file and after start_location
     end_location: SourceLocation,
+
+    /// The token named a macro that was being expanded when it was encountered
+    /// Such a token is never expanded - not even when it is examined again after that macro has finished expanding
+    no_expand: bool,
 }
 
 /// A [Token] with source location information attached
@@ -220,6 +224,7 @@ impl PreprocessToken {
                 PreprocessTokenData {
                     start_location: base_location.offset(start_offset),
                     end_location: base_location.offset(end_offset),
+                    no_expand: false,
                 },
             )
         }
@@ -232,8 +237,19 @@ impl PreprocessToken {
             PreprocessTokenData {
                 start_location: SourceLocation::UNKNOWN,
                 end_location: SourceLocation::UNKNOWN,
+                no_expand: false,
             },
         )
+    }
+
+    /// Returns if the token has been excluded from macro expansion
+    pub fn is_no_expand(&self) -> bool {
+        self.1.no_expand
+    }
+
+    /// Exclude the token from any further macro expansion
+    pub fn set_no_expand(&mut self) {
+        self.1.no_expand = true;
     }
 }
 
